@@ -111,6 +111,15 @@ func (icm *ConfigMap) Load() (object.ObjMetadataSet, error) {
 // the object metadata in the wrapped ConfigMap. Actual storing
 // happens in "GetObject".
 func (icm *ConfigMap) Store(objMetas object.ObjMetadataSet, status []actuation.ObjectStatus) error {
+	for _, objMeta := range objMetas {
+		// Each id is stored as a key of the ConfigMap data. Reject ids whose
+		// key would not parse back to the same id, rather than writing an
+		// inventory which cannot be loaded (or which loads a different id).
+		parsed, err := object.ParseObjMetadata(objMeta.String())
+		if err != nil || parsed != objMeta {
+			return fmt.Errorf("object identifier cannot be stored in the inventory: %q", objMeta)
+		}
+	}
 	icm.objMetas = objMetas
 	icm.objStatus = status
 	return nil
